@@ -1,7 +1,7 @@
 (* C18 -- Run statistics agree with the returned rows (one pipeline batch; additivity over
    batches is C06's stats_additive). *)
 From Coq Require Import String ZArith List Bool Arith.
-From SynRBL Require Import Base.Dict Model.Comp Model.Matcher Model.Pipeline Proofs.PipelineProofs.
+From SynRBL Require Import Base.Dict Model.Comp Model.Matcher Model.Pipeline Proofs.PipelineProofs Proofs.RowLocal Proofs.Balanced Proofs.RunLevel Proofs.StatsAdd Proofs.StatsBounds.
 Import ListNotations.
 Open Scope string_scope.
 
@@ -14,9 +14,24 @@ Theorem C18_stats_agree : forall O db ban fuel t tmsg ins rows st,
   rb_solved st <= rb_applied st /\ mcs_solved st <= mcs_applied st.
 Proof. exact stats_agree. Qed.
 
-(* Kept visible, not proved: rb_solved >= number of rows finally attributed to rule-based and
-   mcs_solved >= number of rows finally attributed to mcs-based (they need "water alone never
-   balances" and the id = position plumbing).  A batch that raises contributes neither rows nor
-   statistics (C05's finding): reaction_cnt then undercounts the input rows. *)
+(* A batch that raises contributes neither rows nor statistics (C05's finding): reaction_cnt then undercounts
+   the input rows of a multi-batch run. *)
+
+(* the last clause: no solved count falls below the number of rows finally attributed to that method.
+   Needs one oracle fact (H2 of Props/C03: the water molecules inserted by the both-side shortcut never
+   balance a reaction by themselves; validated on every recorded batch): then a row labelled rule-based had
+   a completion accepted by the constraint, and a row labelled mcs-based had a successful imputation. *)
+Theorem C18_solved_counts_bound_attributed_rows : forall O db ban fuel,
+  (forall r, bal O (rxn (rb_water O r)) = true -> rxn (rb_water O r) = rxn r) ->
+  forall t tmsg ins rows st, run O db ban fuel t tmsg ins = Done (rows, st) ->
+  count_if (is_m M_RB) rows <= rb_solved st /\ count_if (is_m M_MCS) rows <= mcs_solved st.
+Proof. exact run_solved_counts_bound_attributed. Qed.
+
+(* and the counters are a function of the input list, additive over any partition into batches (see Props/C06) *)
+Theorem C18_statistics_are_a_function_of_the_input : forall O db ban fuel t tmsg ins rows st,
+  run O db ban fuel t tmsg ins = Done (rows, st) -> st = stats_fun O db ban fuel t ins.
+Proof. exact run_stats_are_a_function. Qed.
 
 Print Assumptions C18_stats_agree.
+Print Assumptions C18_solved_counts_bound_attributed_rows.
+Print Assumptions C18_statistics_are_a_function_of_the_input.
